@@ -196,8 +196,9 @@ func genC26(g *Gen) {
 				h.blen = uint32([]int{0, 1, g.R.Intn(64), g.R.Intn(64), 511, 512, 513, g.R.Intn(3000), 4096, 4097}[g.R.Intn(10)])
 				body = g.R.Bytes(int(h.blen))
 			case 4: // oversize header: huge declared length, nothing behind it
-				h.blen = uint32(1<<20 + g.R.Intn(1<<30))
-				if g.R.Bool() {
+				// (kept moderate: a reader that allocates before validating must still finish the run)
+				h.blen = uint32(1<<20 + g.R.Intn(1<<26))
+				if g.R.Chance(4) {
 					h.blen = math.MaxUint32 - uint32(g.R.Intn(4))
 				}
 				body = g.R.Bytes(g.R.Intn(8))
